@@ -37,12 +37,19 @@ def members(s):
     return list(s)
 
 
+def pending(ctx, sess):
+    """the octets waiting to be sent, observed through the public API only: drain a deep copy"""
+    import copy
+
+    return ctx.tobytes(copy.deepcopy(sess).data_to_send())
+
+
 def read(ctx, sess, side):
     st = {
         "state": sess.state.name,
         "O": members(sess._outstanding_requests),
         "S": members(sess._search_requests),
-        "out": ctx.tobytes(sess._outgoing_buffer),
+        "out": pending(ctx, sess),
     }
     if side == "client":
         st["c"] = sess._message_counter
@@ -78,7 +85,6 @@ def make_pre(ctx, side, pshape, tag="pre"):
     for i in range(n):
         for j in range(i):
             ctx.assume(ids[i] != ids[j])
-    outb = ctx.bytes(f"{tag}.out", 2 if state != "BEFORE_OPEN" else 0)
     if side == "client":
         lo = 1 if state in ("BEFORE_OPEN", "CLOSED") else 2
         c = ctx.int(f"{tag}.counter", lo, IDMAX + 1)
@@ -97,7 +103,6 @@ def make_pre(ctx, side, pshape, tag="pre"):
         sess.state = getattr(S.SessionState, state)
         sess._outstanding_requests = V.SSet(ids)
         sess._search_requests = V.SSet([ids[i] for i in searches])
-        sess._outgoing_buffer = V.SByteArray(V.items_of(outb))
         if side == "client":
             sess._message_counter = c
         return sess
@@ -105,8 +110,6 @@ def make_pre(ctx, side, pshape, tag="pre"):
         sess = reach_client(ctx, state, ids, [ids[i] for i in searches], c)
     else:
         sess = reach_server(ctx, state, ids, [ids[i] for i in searches])
-    # the outgoing buffer is opaque to the library (never parsed): its content is set directly
-    sess._outgoing_buffer = bytearray(outb)
     return sess
 
 
@@ -239,7 +242,7 @@ def do_op(ctx, sess, side, op, tag):
     info = {"op": op}
     try:
         if op == "drain":
-            a = ctx.int(f"{tag}.amount", -4, 8)
+            a = ctx.int(f"{tag}.amount", -4, 40)
             info["amount"] = a
             info["ret"] = sess.data_to_send(a)
         elif op == "drain_none":
@@ -337,6 +340,7 @@ def check_step(ctx, side, pre, info, post, props, tag=""):
             fail("C10", "call-fails-with-foreign-exception", f"{info['exc_name']}@{info['exc_site']}")
         if not op.startswith("recv_"):
             req("C10", len(appended) == 0, "refused-call-left-bytes-queued:" + op)
+            req("C12", len(appended) == 0, "failed-send-contributes-bytes-to-the-stream:" + op)
             if pre["state"] != "CLOSED":
                 req("C08", post["state"] == pre["state"], "refused-call-changed-state:" + op)
     # ---- C08: CLOSED is final
